@@ -243,6 +243,7 @@ pub fn generate(seed: u64) -> C05Scn {
         allow_other: false,
         allow_skip: false,
         tl_eighths: 8,
+        crlf_eighths: 1,
         large_inputs: false,
         default_config_eighths: 5,
     };
